@@ -376,8 +376,8 @@ func (o *aop) cadenceFun(k kind, viaRef bool) string {
 		return fmt.Sprintf("view fun (x: %s): Bool { return ((%s %% %d) + %d) %% %d == %d }", pt, sel, o.FMod, o.FMod, o.FMod, o.FRem)
 	case "map":
 		switch k {
-		case KInt:
-			return fmt.Sprintf("fun (x: Int): Int { return x * (%d) + (%d) }", o.MA, o.MB)
+		case KInt, KUInt:
+			return fmt.Sprintf("fun (x: %s): %s { return x * (%d) + (%d) }", k.typ(), k.typ(), o.MA, o.MB)
 		case KStruct:
 			return fmt.Sprintf("fun (x: %s): C20.S { return C20.S(id: x.id + (%d), pad: x.pad) }", pt, o.MB)
 		case KArr:
@@ -575,9 +575,16 @@ func hugeInt(rng *lib.Rng, id int64) *big.Int {
 
 func (g *arrGen) freshID() *big.Int {
 	g.nextID++
-	if g.k == KInt && g.hugeLeft > 0 && (g.nextID == 2 || g.rng.Chance(1, 12)) {
+	if g.k.integer() && g.hugeLeft > 0 && (g.nextID == 2 || g.rng.Chance(1, 12)) {
 		g.hugeLeft--
-		return hugeInt(g.rng, g.nextID)
+		z := hugeInt(g.rng, g.nextID)
+		if g.k == KUInt {
+			z.Abs(z)
+		}
+		return z
+	}
+	if g.k == KUInt && g.rng.Chance(1, 20) {
+		return new(big.Int).Add(new(big.Int).Lsh(bi(1), 64), bi(g.nextID)) // > 64 bits
 	}
 	if g.k == KInt {
 		switch g.rng.Intn(40) {
@@ -703,6 +710,8 @@ func (g *arrGen) pure(s []*big.Int, forAssign bool) *aop {
 		switch g.k {
 		case KInt:
 			o.MA, o.MB = int64(g.rng.Intn(5)-1), int64(g.rng.Intn(9)-4)
+		case KUInt:
+			o.MA, o.MB = int64(g.rng.Intn(4)), int64(g.rng.Intn(5))
 		case KStruct:
 			o.MB = 16 * int64(g.rng.Intn(5))
 		}
